@@ -205,6 +205,11 @@ def random_sd(rng, max_subnets=5, max_size=3, small=False, family=None, wide_fra
                     fw[(s, t)] = list(range(nsrv))
                 else:
                     fw[(s, t)] = sorted(rng.sample(range(nsrv), rng.randint(1, nsrv)))
+    if rng.random() < 0.2:
+        # rules for pairs the topology does not connect (also from the internet into a private subnet): allowed, ignored
+        spare = [(s, t) for s in range(n) for t in range(n) if s != t and not topo[s][t]]
+        for k in rng.sample(spare, min(len(spare), rng.randint(1, 3))):
+            fw[k] = sorted(rng.sample(range(nsrv), rng.randint(0, nsrv)))
     addrs = [(s, h) for s in range(1, n) for h in range(subnets[s])]
     order = list(addrs)
     if rng.random() < 0.3:
@@ -250,6 +255,8 @@ def random_sd(rng, max_subnets=5, max_size=3, small=False, family=None, wide_fra
     hostmap = dict(hosts)
     sens = [(a, hostmap[a]["val"]) for a in sens_addrs]
     limit = None if rng.random() < 0.5 else rng.randint(2, 12)
+    if rng.random() < 0.06:
+        limit = rng.choice([49, 98, 103, 107])
     b0, b1 = n, max(subnets)
     if rng.random() < 0.3:
         b0 += rng.randint(0, 3)
@@ -259,6 +266,27 @@ def random_sd(rng, max_subnets=5, max_size=3, small=False, family=None, wide_fra
     sd = dict(subnets=subnets, topo=topo, nos=nos, nsrv=nsrv, nproc=nproc, exploits=exploits,
               privescs=privescs, costs=costs, fw=fw, hosts=hosts, sens=sens, limit=limit, bounds=(b0, b1))
     return maybe_collide(rng, sd)
+
+
+def many_hosts_sd(rng):
+    """a public host and, behind it, a subnet of more than 256 hosts (row numbers that do not fit one byte)"""
+    big = rng.randint(258, 262)
+    sd = random_sd(rng, max_subnets=2, max_size=1, family="chain")
+    while len(sd["subnets"]) != 4:
+        sd = random_sd(rng, max_subnets=2, max_size=1, family="chain")
+    sd = dict(sd)
+    sd.pop("names", None)
+    sd.pop("anames", None)
+    tmpl = dict(sd["hosts"])[(2, 0)]
+    hosts = [(a, c) for a, c in sd["hosts"] if a[0] != 2] + [((2, h), dict(tmpl, fw={}, val=0 if h else tmpl["val"])) for h in range(big)]
+    hosts.sort(key=lambda x: x[0])
+    subnets = list(sd["subnets"])
+    subnets[2] = big
+    hm = dict(hosts)
+    sens = [(a, hm[a]["val"]) for a, _ in sd["sens"] if a in hm] or [((2, big - 1), 0)]
+    sd.update(subnets=subnets, hosts=hosts, sens=sens, bounds=(max(sd["bounds"][0], 4), max(sd["bounds"][1], big)),
+              exploits=sd["exploits"][:2], privescs=sd["privescs"][:1])
+    return sd
 
 
 def small_values(rng, sd):
